@@ -162,18 +162,26 @@ Lemma first_nl_cons : forall t q, first_nl (t :: q) = set_nl true t :: q.
 Proof. reflexivity. Qed.
 
 (* one struct member, given the parser for its type *)
+Lemma wf_member_embeddable : forall names d b, wf_member names d b = true ->
+  match names with [] => embeddable d | _ => true end = true.
+Proof.
+  intros [|n more] d b H; [|reflexivity]. cbn [wf_member] in H.
+  destruct d as [s| | | | | | |[s| | | | | | |]]; try discriminate; reflexivity.
+Qed.
+
 Lemma elem_ok : forall f (e : elem) r,
   (let '(names, d, tag) := e in
-   forallb wf_name names && wf_dt d && match names with [] => embeddable d | _ => true end) = true ->
+   forallb wf_name names && wf_member names d (wf_dt d)) = true ->
   elem_next r ->
   len (pr_elem e ++ r) < f ->
-  (forall rr, len (pr_dt (snd (fst e)) ++ rr) < f ->
+  (forall rr, wf_dt (snd (fst e)) = true -> len (pr_dt (snd (fst e)) ++ rr) < f ->
               p_dt f (pr_dt (snd (fst e)) ++ rr) = Some (snd (fst e), rr)) ->
   p_elem_with (p_dt f) (p_names f) (pr_elem e ++ r) = Some (e, r).
 Proof.
   intros f [[names d] tag] r Hwf Hr Hlen Hd. cbn [fst snd] in Hd.
-  apply andb_true_iff in Hwf as [Hwf Hemb]. apply andb_true_iff in Hwf as [Hn Hwd].
-  destruct names as [|n more].
+  apply andb_true_iff in Hwf as [Hn Hwd].
+  pose proof (wf_member_embeddable _ _ _ Hwd) as Hemb.
+  destruct names as [|n more]; cbn [wf_member] in Hwd.
   - (* embedded field *)
     unfold pr_elem. cbn [app].
     assert (Hfin : forall dd rest', (match tag with Some s => [tP KRaw s] | None => [] end) ++ r = rest' ->
@@ -184,7 +192,7 @@ Proof.
     destruct d as [s| | | | | | |d']; cbn [embeddable] in Hemb; try discriminate.
     + (* Base *)
       cbn [pr_dt first_nl app]. unfold p_elem_with. tok.
-      cbn [wf_dt] in Hwd. unfold wf_base in Hwd.
+      unfold wf_base in Hwd.
       apply andb_true_iff in Hwd as [Hwd Hmap]. apply andb_true_iff in Hwd as [Hkw Hany].
       apply negb_true_iff in Hkw, Hany. rewrite Hkw.
       assert (Hb : base_or_any s = DBase s) by (unfold base_or_any; rewrite Hany; reflexivity).
@@ -203,9 +211,7 @@ Proof.
     + (* pointer to a named type *)
       destruct d' as [s| | | | | | |]; try discriminate.
       * cbn [pr_dt first_nl app]. unfold p_elem_with. tok.
-        cbn [wf_dt not_struct andb] in Hwd. unfold wf_base in Hwd.
-        apply andb_true_iff in Hwd as [Hwd Hmap]. apply andb_true_iff in Hwd as [Hkw Hany].
-        apply negb_true_iff in Hany.
+        pose proof Hwd as Hany. apply negb_true_iff in Hany.
         assert (Hb : base_or_any s = DBase s) by (unfold base_or_any; rewrite Hany; reflexivity).
         rewrite Hb. apply Hfin. reflexivity.
       * cbn [pr_dt first_nl app]. unfold p_elem_with. tok.
@@ -244,6 +250,7 @@ Proof.
     rewrite p_names_ok; auto.
     + rewrite Hd.
       * apply Hfin.
+      * exact Hwd.
       * rewrite !app_length in *. lia.
     + rewrite Ed. cbn [app peek_is]. unfold is.
       destruct Hk as [E|[E|[E|[E|E]]]]; rewrite E; reflexivity.
@@ -287,11 +294,12 @@ Proof.
     set (rb := T KRBrace "}" true :: rest).
     assert (Hall : forall e, In e es ->
                (let '(names, d, tag) := e in
-                forallb wf_name names && wf_dt d && match names with [] => embeddable d | _ => true end) = true).
+                forallb wf_name names && wf_member names d (wf_dt d)) = true).
     { cbn [wf_dt] in Hwf. rewrite forallb_forall in Hwf. exact Hwf. }
     assert (Hshape : forall e r, In e es -> elem_next (pr_elem e ++ r)).
     { intros e r Hin. destruct (pr_elem_shape e) as (t & q & E & Hnl & Hk).
-      - specialize (Hall e Hin). destruct e as [[nm dd] tg]. apply andb_true_iff in Hall as [_ H]. exact H.
+      - specialize (Hall e Hin). destruct e as [[nm dd] tg]. apply andb_true_iff in Hall as [_ H].
+        exact (wf_member_embeddable _ _ _ H).
       - rewrite E. cbn [app]. exists t, (q ++ r). split; [reflexivity|]. split; [exact Hnl|].
         destruct Hk; auto. }
     assert (Hrb : elem_next rb).
@@ -314,17 +322,16 @@ Proof.
     + subst rb. reflexivity.
     + intros e r Hin Hr HN.
       destruct (pr_elem_shape e) as (t & q & E & Hnl & Hk).
-      { specialize (Hall e Hin). destruct e as [[nm dd] tg]. apply andb_true_iff in Hall as [_ H]. exact H. }
+      { specialize (Hall e Hin). destruct e as [[nm dd] tg]. apply andb_true_iff in Hall as [_ H].
+        exact (wf_member_embeddable _ _ _ H). }
       split; [rewrite E; discriminate|].
       split.
       { rewrite E. cbn [app]. unfold stop_rbrace, peek_is, is. destruct Hk as [K|K]; rewrite K; reflexivity. }
       split.
       { apply elem_ok; auto.
         - lia.
-        - intros rr Hrr. apply IH; auto.
-          + destruct e as [[nm dd] tg]. cbn [fst snd]. pose proof (dsize_in es nm dd tg Hin). lia.
-          + specialize (Hall e Hin). destruct e as [[nm dd] tg]. cbn [fst snd].
-            apply andb_true_iff in Hall as [H _]. apply andb_true_iff in H as [_ H]. exact H. }
+        - intros rr Hwdd Hrr. apply IH; auto.
+          destruct e as [[nm dd] tg]. cbn [fst snd]. pose proof (dsize_in es nm dd tg Hin). lia. }
       { apply (elem_next_facts r Hr). }
     + exact Hshape.
     + exact Hrb.
@@ -439,12 +446,12 @@ Proof.
     destruct fuel as [|f]; [lia|]. cbn [p_psegs].
     replace (route_stop (tP KQuo "/" :: _)) with false by reflexivity.
     replace (is KQuo (tP KQuo "/")) with true by reflexivity.
-    unfold not_returns in Hhead. apply negb_true_iff in Hhead.
     destruct s as [col hd tl]. cbn [ps_colon ps_head ps_tail] in *.
     assert (Hlt : len (pr_ptail tl ++ R) < f).
     { destruct col; cbn [app List.length] in Hlen; lia. }
-    assert (Hstop : forall q, route_stop (match hd with PId x => tI x | PInt x => tP KInt x end :: q) = false).
-    { intros q. destruct hd as [x|x]; unfold route_stop, peek_is, peek_text, is, is_text; cbn [tk tx tI tP kind_eqb orb];
+    assert (Hstop : col = false -> forall q, route_stop (match hd with PId x => tI x | PInt x => tP KInt x end :: q) = false).
+    { intros -> q. cbn [orb] in Hhead. unfold not_returns in Hhead. apply negb_true_iff in Hhead.
+      destruct hd as [x|x]; unfold route_stop, peek_is, peek_text, is, is_text; cbn [tk tx tI tP kind_eqb orb];
         rewrite Hhead; reflexivity. }
     destruct col; cbn [app].
     + replace (route_stop (tP KColon ":" :: _)) with false by reflexivity.
@@ -462,7 +469,7 @@ Proof.
         assert (Hc : peek_is KQuo R || route_stop R = true) by (destruct HR as [H|H]; rewrite H; auto using orb_true_r).
         rewrite Hc. subst R. rewrite app_assoc. rewrite IH; auto.
         clear Hc HR Hlen. lenlia.
-    + rewrite Hstop.
+    + rewrite (Hstop eq_refl).
       destruct hd as [x|x].
       * replace (peek_in [KColon; KIdent; KInt] (tI x :: _)) with true by reflexivity.
         replace (is KColon (tI x)) with false by reflexivity.
